@@ -8,6 +8,7 @@ package main
 // RequestTracingId on requests, SetWarnings and SetTracingId on responses (the documented preconditions of the API).
 
 import (
+	"encoding/hex"
 	"fmt"
 	"math/rand"
 	"sort"
@@ -21,25 +22,37 @@ import (
 
 type mutOp struct {
 	name  string
-	arg   string // Coq term
+	arg   string // Coq term of the argument
+	coq   string // Coq term of type mop (coq/model/Mutators.v)
 	apply func(f *frame.Frame)
 }
 
-func genMutOp(rnd *rand.Rand, c *chooser, v primitive.ProtocolVersion, response bool) mutOp {
+// genMutOp: a direction- and version-appropriate mutator call; with misuse, any of the five mutators.
+func genMutOp(rnd *rand.Rand, c *chooser, v primitive.ProtocolVersion, response bool, misuse bool) mutOp {
 	var names []string
-	if hasPayloadAndWarnings(v) {
-		names = append(names, "SetCustomPayload")
-		if response {
-			names = append(names, "SetWarnings")
-		}
-	}
-	if response {
-		names = append(names, "SetTracingId")
+	if misuse {
+		names = []string{"SetCustomPayload", "SetWarnings", "SetTracingId", "RequestTracingId", "SetCompress"}
 	} else {
-		names = append(names, "RequestTracingId")
+		if hasPayloadAndWarnings(v) {
+			names = append(names, "SetCustomPayload")
+			if response {
+				names = append(names, "SetWarnings")
+			}
+		}
+		if response {
+			names = append(names, "SetTracingId")
+		} else {
+			names = append(names, "RequestTracingId")
+		}
+		names = append(names, "SetCompress")
 	}
-	names = append(names, "SetCompress")
-	switch name := names[rnd.Intn(len(names))]; name {
+	op := genMutOpNamed(rnd, c, names[rnd.Intn(len(names))])
+	op.coq = "(Op" + op.name + " " + op.arg + ")"
+	return op
+}
+
+func genMutOpNamed(rnd *rand.Rand, c *chooser, name string) mutOp {
+	switch name {
 	case "SetCustomPayload":
 		var p map[string][]byte
 		switch rnd.Intn(5) {
@@ -57,7 +70,7 @@ func genMutOp(rnd *rand.Rand, c *chooser, v primitive.ProtocolVersion, response 
 				p[cap16(fmt.Sprintf("k%d%s", i, c.str()))] = c.optBytes()
 			}
 		}
-		return mutOp{name, hlib.CoqTerm(p), func(f *frame.Frame) { f.SetCustomPayload(p) }}
+		return mutOp{name: name, arg: hlib.CoqTerm(p), apply: func(f *frame.Frame) { f.SetCustomPayload(p) }}
 	case "SetWarnings":
 		var w []string
 		switch rnd.Intn(4) {
@@ -73,27 +86,27 @@ func genMutOp(rnd *rand.Rand, c *chooser, v primitive.ProtocolVersion, response 
 				w[i] = c.str()
 			}
 		}
-		return mutOp{name, hlib.CoqOpt(w), func(f *frame.Frame) { f.SetWarnings(w) }}
+		return mutOp{name: name, arg: hlib.CoqOpt(w), apply: func(f *frame.Frame) { f.SetWarnings(w) }}
 	case "SetTracingId":
 		var u *primitive.UUID
 		if rnd.Intn(3) != 0 {
 			u = c.uuid()
 		}
-		return mutOp{name, hlib.CoqTerm(u), func(f *frame.Frame) { f.SetTracingId(u) }}
+		return mutOp{name: name, arg: hlib.CoqTerm(u), apply: func(f *frame.Frame) { f.SetTracingId(u) }}
 	case "RequestTracingId":
 		b := rnd.Intn(2) == 1
-		return mutOp{name, hlib.CoqTerm(b), func(f *frame.Frame) { f.RequestTracingId(b) }}
+		return mutOp{name: name, arg: hlib.CoqTerm(b), apply: func(f *frame.Frame) { f.RequestTracingId(b) }}
 	default:
 		b := rnd.Intn(3) != 0
-		return mutOp{"SetCompress", hlib.CoqTerm(b), func(f *frame.Frame) { f.SetCompress(b) }}
+		return mutOp{name: "SetCompress", arg: hlib.CoqTerm(b), apply: func(f *frame.Frame) { f.SetCompress(b) }}
 	}
 }
 
-func runMutatorCase(id string, rnd *rand.Rand, c *chooser, k *kindSpec, v primitive.ProtocolVersion, msg message.Message) J {
+func runMutatorCase(id string, rnd *rand.Rand, c *chooser, k *kindSpec, v primitive.ProtocolVersion, msg message.Message, misuse bool) J {
 	sid := genStreamId(c, v)
 	f := frame.NewFrame(v, sid, msg)
-	rec := J{"id": id, "version": int(v), "kind": k.name, "response": k.response, "stream": int(sid),
-		"message": hlib.CoqTerm(msg), "frame_initial": hlib.CoqTerm(f)}
+	rec := J{"id": id, "version": int(v), "kind": k.name, "response": k.response, "stream_id": int(sid),
+		"message": hlib.CoqTerm(msg), "frame_initial": hlib.CoqTerm(f), "misuse": misuse}
 	inv := J{"payload_flag": true, "warning_flag": true, "tracing_flag": true, "compress_flag": true, "header_fixed": true, "no_panic": true}
 	rec["invariants"] = inv
 	why := ""
@@ -130,9 +143,10 @@ func runMutatorCase(id string, rnd *rand.Rand, c *chooser, k *kindSpec, v primit
 	check("after NewFrame")
 	n := rnd.Intn(9)
 	ops := make([][2]string, 0, n)
+	opsCoq := make([]string, 0, n)
 	flagsAfter := make([]int, 0, n)
 	for i := 0; i < n; i++ {
-		op := genMutOp(rnd, c, v, k.response)
+		op := genMutOp(rnd, c, v, k.response, misuse)
 		if p, w := guard(func() { op.apply(f) }); p {
 			fail("no_panic", op.name+": "+w)
 		}
@@ -140,13 +154,15 @@ func runMutatorCase(id string, rnd *rand.Rand, c *chooser, k *kindSpec, v primit
 			requested = op.arg == "true"
 		}
 		ops = append(ops, [2]string{op.name, op.arg})
+		opsCoq = append(opsCoq, op.coq)
 		flagsAfter = append(flagsAfter, int(f.Header.Flags))
 		check(fmt.Sprintf("after op %d (%s)", i, op.name))
 	}
 	rec["ops"] = ops
+	rec["ops_coq"] = opsCoq
 	rec["flags_after"] = flagsAfter
-	rec["frame_after"] = hlib.CoqTerm(f)
-	// the frame still encodes with a codec that has a compressor, and round-trips
+	rec["frame_after"] = hlib.CoqTerm(f) // before any encoding: Header.BodyLength is still what NewFrame put there
+	// the frame still encodes (encodeFrame works on a copy of the header: the recorded frame is not touched) with a codec that has a compressor, and round-trips
 	codec := codecFor("lz4")
 	enc, _, oc, w := encodeFrame(codec, f)
 	rec["encode"] = oc
@@ -173,7 +189,6 @@ func runMutatorCase(id string, rnd *rand.Rand, c *chooser, k *kindSpec, v primit
 		default:
 			rt = true
 		}
-		rec["decoded"] = hlib.CoqTerm(dec)
 	}
 	rec["roundtrip_equal"] = rt
 	rec["why"] = why
@@ -223,7 +238,7 @@ func startupString(rnd *rand.Rand) string {
 		rnd.Read(b)
 		return string(b)
 	}
-	if rnd.Intn(40) == 0 {
+	if rnd.Intn(600) == 0 {
 		return repeatString(65535, 1)
 	}
 	return startupStrings[rnd.Intn(len(startupStrings))]
@@ -258,27 +273,11 @@ func runStartupCase(id string, rnd *rand.Rand) J {
 	}
 	n := rnd.Intn(9)
 	ops := make([][2]string, 0, n)
-	results := make([]string, 0, n)
+	opsCoq := make([]string, 0, n)
 	states := make([]string, 0, n)
 	for i := 0; i < n; i++ {
 		ai := rnd.Intn(len(startupAccessors))
 		a := startupAccessors[ai]
-		if rnd.Intn(4) == 0 { // a getter
-			var got string
-			if p, w := guard(func() { got = a.get(m) }); p {
-				fail("no_panic", w)
-			}
-			gname := "Get" + a.name
-			if a.bool {
-				gname = "Is" + a.name
-				results = append(results, got)
-			} else {
-				results = append(results, hlib.CoqTerm(got))
-			}
-			ops = append(ops, [2]string{gname, ""})
-			states = append(states, hlib.CoqTerm(m.Options))
-			continue
-		}
 		s := startupString(rnd)
 		b := rnd.Intn(2) == 1
 		// snapshot of everything the setter does not own
@@ -298,9 +297,14 @@ func runStartupCase(id string, rnd *rand.Rand) J {
 		got := a.get(m)
 		want := s
 		argTerm := hlib.CoqTerm(s)
-		if a.bool {
+		coq := "(SSet K" + a.name + " " + argTerm + ")"
+		switch {
+		case a.bool:
 			want = strconv.FormatBool(b)
 			argTerm = want
+			coq = "(SSetThrow " + want + ")"
+		case a.name == "Compression":
+			coq = "(SSetCompression " + argTerm + ")"
 		}
 		step := fmt.Sprintf("op %d Set%s(%q)", i, a.name, clip(want))
 		if got != want {
@@ -332,18 +336,23 @@ func runStartupCase(id string, rnd *rand.Rand) J {
 				fail("others_unchanged", fmt.Sprintf("%s: Get%s changed", step, g.name))
 			}
 		}
-		if a.bool {
-			results = append(results, got)
-		} else {
-			results = append(results, hlib.CoqTerm(got))
-		}
 		ops = append(ops, [2]string{"Set" + a.name, argTerm})
+		opsCoq = append(opsCoq, coq)
 		states = append(states, hlib.CoqTerm(m.Options))
 	}
+	observed := J{}
+	for _, g := range startupAccessors {
+		if g.bool {
+			observed[g.name] = g.get(m) == "true"
+		} else {
+			observed[g.name] = hex.EncodeToString([]byte(g.get(m)))
+		}
+	}
 	rec["ops"] = ops
-	rec["results"] = results // the getter's answer after each op (the matching getter for a setter)
+	rec["ops_coq"] = opsCoq
 	rec["options_after_each"] = states
-	rec["options_after"] = hlib.CoqTerm(m.Options)
+	rec["observed"] = observed // the getters' answers after the whole sequence (strings in hex)
+	rec["final"] = hlib.CoqTerm(m.Options)
 	rec["why"] = why
 	return rec
 }
@@ -361,7 +370,7 @@ func cmdMutators(args []string) {
 				continue
 			}
 			i++
-			hlib.Emit(runMutatorCase("u"+strconv.Itoa(i), rnd, c, k, v, k.gen(c, v)))
+			hlib.Emit(runMutatorCase("u"+strconv.Itoa(i), rnd, c, k, v, k.gen(c, v), false))
 		}
 	}
 	for j := 0; j < n; j++ {
@@ -372,7 +381,19 @@ func cmdMutators(args []string) {
 			continue
 		}
 		i++
-		hlib.Emit(runMutatorCase("u"+strconv.Itoa(i), rnd, c, k, v, k.gen(c, v)))
+		hlib.Emit(runMutatorCase("u"+strconv.Itoa(i), rnd, c, k, v, k.gen(c, v), false))
+	}
+	// misuse: any mutator on any frame (RequestTracingId on a response, SetWarnings on a request, payloads below v4 ...);
+	// these histories are characterised, not judged
+	for j, nm := 0, n/10+30; j < nm; j++ {
+		v := allVersions[rnd.Intn(len(allVersions))]
+		k := &kinds[rnd.Intn(len(kinds))]
+		if !k.definedIn(v) {
+			j--
+			continue
+		}
+		i++
+		hlib.Emit(runMutatorCase("x"+strconv.Itoa(j+1), rnd, c, k, v, k.gen(c, v), true))
 	}
 	ns := n/2 + 50
 	for j := 0; j < ns; j++ {
